@@ -174,6 +174,28 @@ def build_harness(src, out, link_parsec=False, extra=(), build=PBUILD, extra_src
     return rc == 0, (o + e)[-6000:]
 
 
+def build_race_harness(src, out, link_parsec=False, extra=(), build=PBUILD, cflags=()):
+    """race-exploration build of a harness (DESIGN.md 8.3): the TU is compiled by clang with
+    -fsanitize=thread and linked with harness/tsanrt.c instead of the ThreadSanitizer runtime, so that
+    every access to the registered shared bytes is a scheduling point."""
+    os.makedirs(BIN, exist_ok=True)
+    obj, rto = out + ".o", out + ".rt.o"
+    rc, o, e = run(["clang"] + harness_cflags(build) + ["-w", "-fsanitize=thread", "-DVERIF_RACE"] + list(cflags)
+                   + ["-c", os.path.join(VERIF, src), "-o", obj], timeout=300)
+    if rc != 0:
+        return False, (o + e)[-4000:]
+    rc, o, e = run(["cc", "-O1", "-mcx16", "-c", os.path.join(VERIF, "harness/tsanrt.c"), "-o", rto], timeout=120)
+    if rc != 0:
+        return False, (o + e)[-4000:]
+    cmd = ["cc", obj, rto, "-o", out]
+    if link_parsec:
+        libdir = os.path.join(build, "parsec")
+        cmd += ["-L" + libdir, "-lparsec", "-Wl,-rpath," + libdir]
+    cmd += ["-lpthread", "-lm", "-lhwloc"] + MPI_LINK + list(extra)
+    rc, o, e = run(cmd, timeout=300)
+    return rc == 0, (o + e)[-4000:]
+
+
 # --------------------------------------------------------------------------
 # Coq side
 def coq_makefile():
@@ -382,6 +404,7 @@ class Check:
     link_parsec = False
     harness_ldflags = ()
     harness_cflags = ()         # e.g. ("-DBUILDING_PARSEC",) for T-sched harnesses using interpose.h
+    race = False                # True: also build the harness with -DVERIF_RACE (clang -fsanitize=thread + tsanrt.c)
     technique = "Coq proof + differential correspondence"
     trusted = ()
     assumptions = ()
@@ -442,6 +465,25 @@ class Check:
     def search_cases(self):
         """extra directed cases tried when an obligation or the correspondence broke."""
         return []
+
+    def race_cases(self, cases):
+        """cases for the race exploration (plain accesses are scheduling points): search only."""
+        return [c for c in cases if self.nontrivial_key(c) is not None]
+
+    def race_oracle(self, case, obs):
+        return self.oracle(case, obs)
+
+    def run_race(self, cases):
+        os.makedirs(CASES, exist_ok=True)
+        cf = os.path.join(CASES, "%s-race-%d.txt" % (self.id, self.seed))
+        with open(cf, "w") as f:
+            for c in cases:
+                f.write(c + "\n")
+        rc, o, e = run([self.hbin() + "_race", cf], timeout=self.impl_timeout())
+        lines = o.splitlines()
+        if rc != 0 or len(lines) != len(cases):
+            lines = lines[:len(cases)] + ["<race impl rc=%d: %s>" % (rc, e.strip()[-200:].replace("\n", " "))] * (len(cases) - len(lines))
+        return lines
 
     def dist(self, cases):
         """input distribution summary for the evidence."""
@@ -542,6 +584,13 @@ class Check:
                                     cflags=self.harness_cflags)
             if not ok:
                 fails.append(Failure("correspondence", "harness %s no longer compiles against /repo" % self.harness_src, msg))
+        self.race_ok = False
+        if self.harness_src and self.race:
+            ok, msg = build_race_harness(self.harness_src, self.hbin() + "_race", self.link_parsec,
+                                         self.harness_ldflags, cflags=self.harness_cflags)
+            self.race_ok = ok
+            if not ok:
+                fails.append(Failure("correspondence", "race-exploration build of %s no longer compiles against /repo" % self.harness_src, msg))
         if self.extracted:
             ok, msg = build_driver(self.comp, "ocaml/d_%s.ml" % self.comp, self.extracted, self.mbin())
             if not ok:
@@ -595,6 +644,19 @@ class Check:
                 r = self.oracle(c, a)
                 if r:
                     oracle_fail.append((i, r))
+        self.race_fail = []
+        if can_run and cases and getattr(self, "race_ok", False):
+            rcases = list(self.race_cases(cases))
+            robs = self.run_race(rcases) if rcases else []
+            for c, a in zip(rcases, robs):
+                r = self.race_oracle(c, a)
+                if r:
+                    self.race_fail.append((c, a, r))
+            self.cov["race_exploration"] = {
+                "schedules": len(rcases), "oracle_hits": len(self.race_fail),
+                "note": "search only: the same harness compiled with clang -fsanitize=thread and harness/tsanrt.c, every plain or "
+                        "atomic access to the shared objects is a scheduling point; results are judged by the property oracle, "
+                        "not compared with the model"}
         keys = set()
         for c in cases:
             k = self.nontrivial_key(c)
@@ -626,6 +688,11 @@ class Check:
                 cases = cases + extra
                 impl = impl + eimpl
                 model = model + emodel
+        for (c, a, r) in getattr(self, "race_fail", []):
+            cases = cases + ["race! " + c]
+            impl = impl + [a]
+            model = model + ["(race exploration: not compared with the model)"]
+            oracle_fail.append((len(cases) - 1, "race exploration: " + r))
         return fails, oracle_fail, cases, impl, model
 
     def shrink(self, case, impl_line):
@@ -640,7 +707,9 @@ class Check:
         seen_known = set()
         reported_sigs = set()
         for i, why in oracle_fail:
-            sig = self.signature(cases[i], impl[i])
+            israce = cases[i].startswith("race! ")
+            bare = cases[i][6:] if israce else cases[i]
+            sig = self.signature(bare, impl[i]) + ("-race" if israce else "")
             hit = [k for k in known if k[0] == sig]
             if hit:
                 if sig not in seen_known:
@@ -650,7 +719,7 @@ class Check:
             if sig in reported_sigs:
                 continue
             reported_sigs.add(sig)
-            c, a = self.shrink(cases[i], impl[i])
+            c, a = (cases[i], impl[i]) if israce else self.shrink(cases[i], impl[i])
             path = os.path.join(REPLAYS, "%s-%d-%s.case" % (self.id, self.seed, sig))
             with open(path, "w") as f:
                 f.write("# property %s violated on the implementation: %s\n" % (self.id, why))
@@ -708,20 +777,31 @@ class Check:
         return self.finish(fails, oracle_fail, cases, impl, model)
 
     def replay(self, path):
-        cases = [l.rstrip("\n") for l in open(path) if l.strip() and not l.startswith("#")]
+        lines = [l.rstrip("\n") for l in open(path) if l.strip() and not l.startswith("#")]
+        cases = [l for l in lines if not l.startswith("race! ")]
+        rcases = [l[6:] for l in lines if l.startswith("race! ")]
         fails = self.build_sides()
         for f in fails:
             print("BROKEN", f.kind, f.what, f.detail[:2000])
-        impl, model = self.correspond(cases, "replay")
         rc = 0
-        for c, a, b in zip(cases, impl, model):
-            print("case :", c)
-            print("impl :", a)
-            print("model:", b)
-            r = self.oracle(c, a)
-            print("oracle:", r or "property holds on this observation")
-            if r or a != b:
-                rc = 1
+        if cases:
+            impl, model = self.correspond(cases, "replay")
+            for c, a, b in zip(cases, impl, model):
+                print("case :", c)
+                print("impl :", a)
+                print("model:", b)
+                r = self.oracle(c, a)
+                print("oracle:", r or "property holds on this observation")
+                if r or a != b:
+                    rc = 1
+        if rcases and getattr(self, "race_ok", False):
+            for c, a in zip(rcases, self.run_race(rcases)):
+                print("case :", c, "(race exploration)")
+                print("impl :", a)
+                r = self.race_oracle(c, a)
+                print("oracle:", r or "property holds on this observation")
+                if r:
+                    rc = 1
         return rc
 
 
